@@ -46,6 +46,13 @@ def run_rules(pid, ctx):
                        "rule crashed (fails closed): %r" % e, reason="internal-error",
                        trace=traceback.format_exc()[-1500:])
         res.wall = time.time() - t0
+        # one report per key
+        seen_k, uniq = set(), []
+        for rep in res.reports:
+            if rep.key not in seen_k:
+                seen_k.add(rep.key)
+                uniq.append(rep)
+        res.reports = uniq
         # floors
         if res.floor and len(res.instances) < res.floor and not any(
                 r.detail.get("reason") in ("anchor-missing", "internal-error") for r in res.reports):
